@@ -209,12 +209,17 @@ class _ResRe:
 RES_RE = _ResRe
 
 
+DRIVER_PID = ['']
+DRIVER_ENV = {}
+
+
 def evaluate(driver, lines, timeout=3600):
     """Pipe protocol lines (with impl answers) into the Lean driver. Returns list of result dicts."""
     if not lines:
         return []
-    p = subprocess.run([driver], input=('\n'.join(lines) + '\n').encode(), stdout=subprocess.PIPE,
-                       stderr=subprocess.PIPE, timeout=timeout)
+    pid = DRIVER_PID[0]
+    p = subprocess.run([driver, pid], input=('\n'.join(lines) + '\n').encode(), stdout=subprocess.PIPE,
+                       stderr=subprocess.PIPE, timeout=timeout, env=dict(os.environ, **DRIVER_ENV))
     outs = p.stdout.decode('utf-8', 'replace').split('\n')
     res = []
     for i, line in enumerate(lines):
@@ -223,7 +228,10 @@ def evaluate(driver, lines, timeout=3600):
         if not m:
             res.append(dict(case=line, eq=False, spec='NA', model='driver-crash:' + o[:200] + p.stderr.decode('utf-8', 'replace')[-300:], why='', tags=[]))
             continue
-        res.append(dict(case=line, eq=m.group(1) == 'EQ', spec=m.group(2), model=m.group(3), why=m.group(4) or '',
+        spec, why = m.group(2), m.group(4) or ''
+        if spec == 'FAIL' and why.startswith('[') and pid and not why.startswith('[' + pid + ']'):
+            spec = 'PASS'   # a verdict about another property; that property's own check reports it
+        res.append(dict(case=line, eq=m.group(1) == 'EQ', spec=spec, model=m.group(3), why=why,
                         tags=[t for t in (m.group(5) or '').split(',') if t]))
     return res
 
@@ -281,10 +289,7 @@ def shrink_candidates(case):
                         yield ' '.join(toks[:i] + [sep.join(rest)] + toks[i + 1:])
                 break
         else:
-            if re.fullmatch(r'\d+', t) and int(t) > 0 and False:
-                yield ' '.join(toks[:i] + [str(int(t) // 2)] + toks[i + 1:])
-            elif t not in ('-', '_') and re.fullmatch(r'[\d,]+', t):
-                yield ' '.join(toks[:i] + ['-'] + toks[i + 1:])
+            pass
 
 
 def shrink(harness, driver, result, still_bad, max_rounds=40):
@@ -395,6 +400,12 @@ def check(pid, cfg, tier, seed, tmp, args, t0):
 
     results = []
     gen_notes = []
+    DRIVER_PID[0] = pid
+    if harness:
+        tbl = os.path.join(tmp, 'unicode.tbl')
+        with open(tbl, 'wb') as f:
+            subprocess.run([harness, 'unicode'], stdout=f, timeout=600)
+        DRIVER_ENV['FZF_UNICODE'] = tbl
     if args.replay:
         rp = json.load(open(args.replay))
         if rp.get('kind') == 'failing-input' and harness and driver:
@@ -453,7 +464,8 @@ def check(pid, cfg, tier, seed, tmp, args, t0):
     for r in fails:
         f = next((f for f in findings if finding_matches(f, r)), None)
         if f:
-            seen_known.setdefault(f['id'], (f, r))
+            if f['id'] not in seen_known or len(r['case']) < len(seen_known[f['id']][1]['case']):
+                seen_known[f['id']] = (f, r)
         else:
             new_fails.append(r)
     for fid, (f, r) in seen_known.items():
